@@ -792,6 +792,24 @@ def C09_drivers(ctx, rid, core, cli, wasm, G):
                 okp = bool(outside) or all(n_ in holders for n_ in need)
                 ctx.inst(rid, "%s#second-slot-on-every-alternative" % label, okp,
                          "the end-of-line comment slot is read %s" % ("after the match on the first child: for every alternative" if outside else "only inside the arms %s of the match on the first child (alternatives %s)" % (sorted(holders), need)), H.loc(FM))
+                # ... and unconditionally: the test that reads the second slot does not also ask which alternative the first child was
+                # (directly, or through a local computed from the first child's rule)
+                lets_ = {x["pat"]["name"]: x["init"] for x in H.walk(stmt_arm) if H.kind(x) == "Let" and H.kind(x.get("pat")) == "Bind" and x.get("init") is not None}
+                def rule_paths(e_):
+                    return sorted({H.last(H.path_def(y)) for y in H.walk(e_) if H.kind(y) == "Path" and "parser::Rule::" in (H.path_def(y) or "") and H.last(H.path_def(y)) not in ("comment", "eol_comment")})
+                gated = []
+                for i_ in H.walk(stmt_arm):
+                    if H.kind(i_) == "If" and any(any(y is x for y in H.walk(i_["cond"])) for x in outside):
+                        g_ = rule_paths(i_["cond"])
+                        for y in H.walk(i_["cond"]):
+                            nm_ = H.path_local(y) if H.kind(y) == "Path" else None
+                            if nm_ in lets_:
+                                g_ += rule_paths(lets_[nm_])
+                        if g_:
+                            gated.append((H.loc(i_), sorted(set(g_))))
+                if outside:
+                    ctx.inst(rid, "%s#second-slot-not-gated-by-first" % label, False if gated else True,
+                             "the test that reads the end-of-line comment also depends on the first child's rule: %s (a comment after the other alternatives is dropped)" % (gated or "no"), H.loc(FM))
             break
         if not found:
             ctx.inst(rid, "%s#consumes-both-slots" % label, None, "no statement arm calling format_expr found in %s" % fname, None)
